@@ -10,7 +10,11 @@
 //   kind B : Counting(Batch(batch size p1; p1 = 0: set_batch_size never called = default 16)(recording upstream)), p2 threads;
 //            program = ONE global op sequence a<t> allocate(), n<t>:<k> allocate(k), f<t> deallocate(first held),
 //            m<t>:<k> deallocate(first k held); thread t executes its ops when the baton reaches them
-//   program (C,H,P,S) = threads separated by '|', ops separated by ','
+//   kind M : several ObjectPools, reserve_and_clear(p1) each; p2 = one digit per pool, 1 strict / 2 auto-create (e.g. 12)
+//            ops: O<j> handle := pool j .pop(), T<j> try_pop, N handle{new object} with a default-constructed Deleter,
+//                 H<j> pool j .push(std::move(first handle))   (unique_ptr<T, Deleter> overload),
+//                 U<j> pool j .push(unique_ptr<T>{first handle.release()}), D first handle dies, V move the first handle
+//   program (C,H,P,S,M) = threads separated by '|', ops separated by ','
 // stdout: <case-id> ok steps=<n> | <outcome, same text as the model driver> | <monitor>=<0/1> ...
 #include "shim/prelude.h"
 #include "shim/dsched.h"
@@ -176,12 +180,14 @@ struct Obj {
   static std::vector<int>* alive;
   explicit Obj(int i) : id(i) {}
   static std::function<void(int)>* hook;
-  ~Obj() { destroyed->push_back(id); (*alive)[(size_t)id] = 0; if (hook) (*hook)(id); }
+  static bool twice;
+  ~Obj() { if (!(*alive)[(size_t)id]) twice = true; destroyed->push_back(id); (*alive)[(size_t)id] = 0; if (hook) (*hook)(id); }
   static void operator delete(void*) {}          // memory is kept until the end of the case (ids stay readable)
 };
 std::vector<int>* Obj::destroyed = nullptr;
 std::vector<int>* Obj::alive = nullptr;
 std::function<void(int)>* Obj::hook = nullptr;
+bool Obj::twice = false;
 
 static void run_pool(const char* id, bool strict, size_t pcap, unsigned long long seed, int strategy,
                      const std::string& prog) {
@@ -311,6 +317,146 @@ static void run_pool(const char* id, bool strict, size_t pcap, unsigned long lon
   for (void* m : mem) ::operator delete(m);
 }
 
+// ------------------------------------------------------------------------------------------- M
+static void run_multi(const char* id, size_t pcap, unsigned long modes, unsigned long long seed, int strategy,
+                      const std::string& prog) {
+  using Pool = ObjectPool<Obj>;
+  using Ptr = std::unique_ptr<Obj, Pool::Deleter>;
+  std::string ms = std::to_string(modes);
+  size_t K = ms.size();
+  auto threads = parse_prog(prog);
+  size_t nt = threads.size();
+  std::vector<int> destroyed, alive, holder, target, expected_leak;
+  std::vector<void*> mem;
+  Obj::destroyed = &destroyed; Obj::alive = &alive; Obj::twice = false;
+  int created = 0;
+  bool owner = true, route = true, recycle = true, nocreate = true;
+  static thread_local int cur_t = -1;
+  std::vector<int> in_obj(nt, -1), in_pool(nt, -1), run_ok(nt, 0), run_bad(nt, 0), dropped(nt, 0);
+  std::function<void(int)> hook = [&](int oid) { if (cur_t >= 0 && in_obj[(size_t)cur_t] == oid) dropped[(size_t)cur_t] = 1; };
+  Obj::hook = &hook;
+  auto make = [&](int home) {
+    void* m = ::operator new(sizeof(Obj));
+    mem.push_back(m);
+    alive.push_back(1); holder.push_back(-1); target.push_back(home); expected_leak.push_back(0);
+    return new (m) Obj(created++);
+  };
+  std::vector<Pool*> pools;
+  std::vector<std::vector<int>> rec(K);
+  for (size_t j = 0; j < K; ++j) {
+    auto* p = new Pool;
+    p->reserve_and_clear(pcap);
+    if (ms[j] == '2') p->set_creator([&, j] { return std::unique_ptr<Obj>(make((int)j)); });
+    p->set_recycler([&, j](Obj& o) {
+      rec[j].push_back(o.id);
+      if (cur_t >= 0 && in_obj[(size_t)cur_t] == o.id) { if (in_pool[(size_t)cur_t] == (int)j) run_ok[(size_t)cur_t]++; else run_bad[(size_t)cur_t]++; }
+    });
+    pools.push_back(p);
+  }
+  struct Held { Obj* raw; Ptr wrapped; int bind; };
+  std::vector<std::list<Held>> held(nt);
+  std::vector<std::string> out(nt);
+  auto tok = [&](size_t t, const std::string& x) { out[t] += (out[t].empty() ? "" : ",") + x; };
+  auto got = [&](size_t t, Ptr&& p, const char* tag, int j) {
+    if (!p) { tok(t, std::string(tag) + "-"); return; }
+    int oid = p->id;
+    if (!alive[(size_t)oid] || holder[(size_t)oid] >= 0) owner = false;
+    if (target[(size_t)oid] != j) route = false;            // pool j hands out an object that was not put into pool j
+    if (ms[(size_t)j] == '1' && target[(size_t)oid] < 0) nocreate = false;
+    holder[(size_t)oid] = (int)t;
+    tok(t, std::string(tag) + std::to_string(oid));
+    Obj* raw = p.get();
+    held[t].push_back(Held{raw, std::move(p), j});
+  };
+  std::vector<std::function<void()>> bodies;
+  for (size_t t = 0; t < nt; ++t) {
+    bodies.push_back([&, t] {
+      cur_t = (int)t;
+      for (auto& op : threads[t]) {
+        size_t j = (size_t)op.a < K ? (size_t)op.a : 0;
+        switch (op.k) {
+          case 'O': got(t, pools[j]->pop(), "O", (int)j); break;
+          case 'T': got(t, pools[j]->try_pop(), "T", (int)j); break;
+          case 'N': {
+            Obj* o = make(-1);
+            holder[(size_t)o->id] = (int)t;
+            held[t].push_back(Held{o, Ptr(o), -1});           // default-constructed Deleter: bound to no pool
+            tok(t, "N" + std::to_string(o->id));
+          } break;
+          case 'H': case 'U': case 'D': {
+            if (held[t].empty()) { tok(t, "_"); break; }
+            Held h = std::move(held[t].front());
+            held[t].pop_front();
+            int oid = h.raw->id;
+            int dest = op.k == 'D' ? h.bind : (int)j;
+            in_obj[t] = oid; in_pool[t] = dest; run_ok[t] = run_bad[t] = dropped[t] = 0;
+            target[(size_t)oid] = dest;
+            holder[(size_t)oid] = -2 - (int)t;
+            if (dest < 0) expected_leak[(size_t)oid] = 1;       // a handle bound to no pool dies: documented loss
+            if (op.k == 'H') pools[j]->push(std::move(h.wrapped));
+            else if (op.k == 'U') pools[j]->push(std::unique_ptr<Obj>(h.wrapped.release()));
+            else h.wrapped.reset();
+            if (dest >= 0 && !(run_ok[t] == 1 && run_bad[t] == 0)) recycle = false;
+            if (dest < 0 && (run_ok[t] || run_bad[t])) recycle = false;
+            in_obj[t] = -1;
+            if (holder[(size_t)oid] == -2 - (int)t) holder[(size_t)oid] = -1;
+            tok(t, op.k == 'D' ? std::string("D") : std::string("P") + (dropped[t] ? "1" : "0"));
+          } break;
+          case 'V': {
+            if (held[t].empty()) { tok(t, "_"); break; }
+            Held h = std::move(held[t].front());
+            held[t].pop_front();
+            Ptr tmp;
+            tmp = std::move(h.wrapped);                          // move assignment (Deleter::operator=)
+            h.wrapped = std::move(tmp);
+            held[t].push_back(std::move(h));
+            tok(t, "V");
+          } break;
+        }
+      }
+    });
+  }
+  verif::Result r = run_threads(bodies, seed, strategy);
+  bool count_ok = true;
+  std::string cs, rs;
+  size_t ndrained = 0;
+  for (size_t j = 0; j < K; ++j) {
+    size_t freen = pools[j]->free_object_number();
+    std::vector<int> cached;
+    for (;;) {
+      Ptr p = pools[j]->try_pop();
+      if (!p) break;
+      int oid = p->id;
+      if (!alive[(size_t)oid] || holder[(size_t)oid] >= 0) owner = false;
+      if (target[(size_t)oid] != (int)j) route = false;
+      holder[(size_t)oid] = 1000;                               // drained
+      cached.push_back(oid);
+      p.release();
+    }
+    if (freen != cached.size()) count_ok = false;
+    ndrained += cached.size();
+    cs += (j ? "/" : "") + lst(cached); rs += (j ? "/" : "") + lst(rec[j]);
+  }
+  std::vector<int> hl, leaked;
+  size_t nheld = 0, nexp = 0;
+  for (auto& hs : held) for (auto& h : hs) { hl.push_back(h.raw->id); nheld++; }
+  for (size_t o = 0; o < alive.size(); ++o) {
+    if (alive[o] && holder[o] < 0) leaked.push_back((int)o);
+    if (alive[o] && holder[o] < 0 && expected_leak[o]) nexp++;
+  }
+  bool leak = (size_t)created == destroyed.size() + nheld + ndrained + leaked.size() && leaked.size() == nexp;
+  std::string o;
+  for (size_t t = 0; t < nt; ++t) o += (t ? "|" : "") + out[t];
+  printf("%s ok steps=%llu | %s cached=%s destroyed=%s rec=%s fresh=%d leaked=%s held=%s | owner=%d route=%d recycle=%d "
+         "leak=%d count=%d twice=%d nocreate=%d\n", id, (unsigned long long)r.steps, o.c_str(), cs.c_str(),
+         lst(destroyed).c_str(), rs.c_str(), created, lst(leaked).c_str(), lst(hl).c_str(), owner, route, recycle, leak,
+         count_ok, !Obj::twice, nocreate);
+  for (auto& hs : held) for (auto& h : hs) h.wrapped.release();
+  for (auto* p : pools) delete p;
+  Obj::hook = nullptr;
+  for (void* m : mem) ::operator delete(m);
+}
+
 // ------------------------------------------------------------------------------------------- B
 static void run_batch(const char* id, size_t batch, size_t nt, unsigned long long seed, int strategy,
                       const std::string& prog) {
@@ -418,6 +564,7 @@ int main() {
       case 'P': run_pool(id, false, p1, seed, strategy, prog); break;
       case 'S': run_pool(id, true, p1, seed, strategy, prog); break;
       case 'B': run_batch(id, p1, p2, seed, strategy, prog); break;
+      case 'M': run_multi(id, p1, p2, seed, strategy, prog); break;
     }
     fflush(stdout);
   }
